@@ -137,15 +137,28 @@ def examine(case, draw=None, stats=None):
             out.append(V('log-replay', ['log-replay-differs'] + diff(base, s1)[:2], case,
                          {k: [base[k], s1[k]] for k in diff(base, s1)}))
     beyond = bool(case.get('log_only'))
-    # (2) card export / import
-    m = safe_call(c.to_matrix, ['bib'])
-    if m[0] == 'exc':
-        out.append(V('card-roundtrip', ['to_matrix-raises', m[1]], case, m[:3]))
-    elif c.jumpers:
-        r2 = safe_call(HighJumpCompetition.from_matrix, m[1])
+    # (2) card export / import - the plain card, and the same card exported with the other columns an export may carry
+    # (default columns, the start-list columns) or imported with the documented verbose option: the same competition
+    import contextlib, io
+    variants = [(['bib'], {}, 'plain'), (None, {}, 'default-columns'),
+                (['order', 'bib', 'first_name', 'last_name', 'team', 'category'], {}, 'start-list-columns'),
+                (['bib'], {'verbose': True}, 'verbose-import')]
+    for keys, kw, vname in variants:
+        m = safe_call(c.to_matrix, list(keys)) if keys is not None else safe_call(c.to_matrix)
+        if m[0] == 'exc':
+            out.append(V('card-roundtrip', ['to_matrix-raises', m[1]] + ([vname] if vname != 'plain' else []), case, m[:3]))
+            break
+        if not c.jumpers:
+            break
+        if vname == 'start-list-columns' and any(str(getattr(j, 'order', 1)).upper() in ('DNS', 'DQ') or getattr(j, 'order', 1) is None for j in c.jumpers):
+            continue          # non-starters are not replayed by an import (documented): not the same competition
+        with contextlib.redirect_stdout(io.StringIO()):
+            r2 = safe_call(HighJumpCompetition.from_matrix, m[1], **kw)
         if r2[0] == 'exc':
             if not beyond:
-                out.append(V('card-roundtrip', ['from_matrix-raises', r2[1]], case, {'matrix': m[1], 'error': r2[:3]}))
+                out.append(V('card-roundtrip', ['from_matrix-raises', r2[1]] + ([vname] if vname != 'plain' else []), case,
+                             {'matrix': m[1], 'error': r2[:3]}))
+                break
         else:
             a, b = no_pass(base), no_pass(snap(r2[1]))
             if beyond:
@@ -156,8 +169,9 @@ def examine(case, draw=None, stats=None):
                 a.pop('places', None)
                 b.pop('places', None)
             if a != b:
-                out.append(V('card-roundtrip', ['card-roundtrip-differs'] + diff(a, b)[:2], case,
+                out.append(V('card-roundtrip', ['card-roundtrip-differs'] + ([vname] if vname != 'plain' else []) + diff(a, b)[:2], case,
                              {'matrix': m[1], 'diff': {k: [a[k], b[k]] for k in diff(a, b)}}))
+                break
     if beyond:
         return out
     # (3) interleavings per height
